@@ -13,6 +13,6 @@ for l in lines[a-1:b]:
         elif e['k']=='fire': fx.append(('fire',e['d'],e['ok'],e.get('exc'),(e.get('val') or {}).get('v')))
         elif e['k']=='ret': fx.append(('ret',e['d'],e['mid']))
         else: fx.append((e['k'],e.get('how'),e.get('name'),e.get('exc')))
-    s=r['stim']; extra={k:(v.get('v') if isinstance(v,dict) else v) for k,v in s.items() if k in('what','v','qos','clean','ka','tm','reason','ver')}
-    if s['op']=='recv': extra=bytes(s['bytes'][:12]).hex()
+    s=r['stim']; extra={k:(v.get('v') if isinstance(v,dict) else v) for k,v in s.items() if k in('what','v','qos','clean','ka','tm','reason','ver','part','nested','of')}
+    if s['op']=='recv': extra=(bytes(s['bytes'][:12]).hex(), s.get('part'))
     print(r['n'],r['t'],s['op'],extra, fx, list(r['post']['state'].values()), r['post']['timers'])
